@@ -168,7 +168,7 @@ P("C15", level="proof", design_ref="7/C15", units=uniq(["U.api.create", "U.api.f
        "allocator gives the memory status with *seed_out untouched; polyseed_free(NULL) calls nothing; the free stub rejects "
        "foreign and repeated pointers; block contents are arbitrary in every proof.",
   note="'Subsequent calls behave normally' follows from the frame obligations of C13 (the only state is the ledger and the four statics).")
-P("C16", level="proof", design_ref="7/C16", units=["U.api.free", "U.api.crypt", "U.api.encode", "U.lang.phrase_decode", "U.api.create", "U.api.load"] + DEC + NDEBUG, engines=["statics"],
+P("C16", level="proof", design_ref="7/C16", units=["U.api.free", "U.api.crypt", "U.api.encode", "U.lang.phrase_decode", "U.api.create", "U.api.load"] + DEC + NDEBUG, engines=["statics", "locals"],
   technique='CBMC 6.11 contracts: memzero ghost log in polyseed_free / create / load contracts; woven exit assertions (every secret-bearing local all-zero and wiped through the injected function with its full size) on encode, decoders, crypt, auto-detection; repeated with assert()s compiled out (NDEBUG)',
   text="polyseed_free proved to wipe the block through the injected memzero before the injected free receives it; woven exit assertions prove "
        "that str_tmp, words, poly, mask, pass_norm and the index copy of auto-detection are all-zero and were wiped through the injected "
